@@ -162,6 +162,12 @@ def run(run):
         except Unsupported as e:
             run.ob(f.__name__[3:] + "-encoding", "E2", "kernel is encodable").inconclusive(f"unsupported construct: {e}")
     try:
+        # a user function keeps its name unless it is one of the documented operator method names: the name -> operator table
+        from props import C17
+        C17.ob_operator_table(run, mir, rp)
+    except Unsupported as e:
+        run.ob("operator-dunder-table-encoding", "E2", "kernel is encodable").inconclusive(f"unsupported construct: {e}")
+    try:
         # an identifier is one token whatever letters, digits and underscores it is made of (renaming x1 -> x0 keeps it one name)
         import lexstep
 
